@@ -422,6 +422,15 @@ impl Check for C06 {
                     self.check_one(&p, &expect, name, op, "toplevel", st);
                     let p2 = format!("{}functie f(x, y) {{ x {} y }} f({}, {})", CROSS_PRELUDE, op, TYPE_EXPR[ta], TYPE_EXPR[tb]);
                     self.check_one(&p2, &expect, name, op, "locals", st);
+                    // a local variable against an integer LITERAL (the specialised instructions), both sides
+                    if TYPES[tb] == "int" && ta != tb {
+                        let p3 = format!("{}functie f(x) {{ x {} 3 }} f({})", CROSS_PRELUDE, op, TYPE_EXPR[ta]);
+                        self.check_one(&p3, &expect, name, op, "var-op-lit", st);
+                    }
+                    if TYPES[ta] == "int" && ta != tb {
+                        let p4 = format!("{}functie f(x) {{ 3 {} x }} f({})", CROSS_PRELUDE, op, TYPE_EXPR[tb]);
+                        self.check_one(&p4, &expect, name, op, "lit-op-var", st);
+                    }
                     if i == 12 && op == "+" {
                         st.sample(&p2);
                     }
